@@ -140,7 +140,7 @@ def gen_beh(rng, n_inputs, *, callbacks=True, period_choices=(1_000_000, 2_000_0
         if r < 0.35:
             beh["cb"] = {"kind": "period", "p": rng.choice(period_choices)}
         elif r < 0.6:
-            beh["cb"] = {"kind": "list", "delays": [rng.choice((None, 1_000_000, 2_000_000, 4_000_000, 3_000_000)) for _ in range(rng.randrange(1, 6))]}
+            beh["cb"] = {"kind": "list", "delays": [rng.choice((None, 1_000_000, 2_000_000, 4_000_000, 3_000_000, None, 1_000_000, 2_000_000, 0)) for _ in range(rng.randrange(1, 6))]}   # 0 = call me back at this very time
     return beh
 
 
